@@ -123,6 +123,22 @@ class Explorer:
                 r = self.on_call(e, args, env)
                 if r is not None:
                     return r
+        if self.value_oracle is not None:
+            # sub-expressions the rule knows the value of become constants before folding
+            vo = self.value_oracle
+
+            class _Known(ast.NodeTransformer):
+                def visit(self, node: ast.AST) -> ast.AST:
+                    if isinstance(node, ast.expr) and node is not e:
+                        k = vo(node, env)
+                        if isinstance(k, (str, int, float, bool)) and not isinstance(k, Text):
+                            return ast.copy_location(ast.Constant(value=k), node)
+                    return super().visit(node)
+
+            import copy as _copy
+
+            e = _Known().visit(_copy.deepcopy(e))
+            ast.fix_missing_locations(e)
         scope = Scope(self.folder, self.fn.module, self.fn.cls, {k: v for k, v in env.items() if v is not UNKNOWN and not isinstance(v, Text)})
         if any(isinstance(n, ast.Name) and (env.get(n.id) is UNKNOWN or isinstance(env.get(n.id), Text)) for n in ast.walk(e)):
             return UNKNOWN
